@@ -147,6 +147,11 @@ structure Env where
   filesize : Int
   ext : List (String × Val)
   rules : List Bool                   -- verdicts of the rules defined earlier
+  disabled : List Nat := []           -- rules switched off through the API (yr_rule_disable): they never match;
+                                      -- a direct reference to one is undefined (docs/capi.rst), inside a rule set it counts as not matching
+
+/-- the rule with index `k` (declared earlier) matched: a disabled rule never does -/
+def Env.ruleMatched (env : Env) (k : Nat) : Bool := env.rules.getD k false && !env.disabled.contains k
 
 /-- loop context: variables by nesting depth, and the string the `for..of` placeholder stands for -/
 structure LEnv where
@@ -435,7 +440,7 @@ def eval (env : Env) : LEnv → Expr → Val
   | l, .defined e => vDefined (eval env l e)
   | l, .and a b => vAnd (eval env l a) (eval env l b)
   | l, .or a b => vOr (eval env l a) (eval env l b)
-  | _, .ruleRef k => .bool (env.rules.getD k false)
+  | _, .ruleRef k => if env.disabled.contains k then .undef else .bool (env.rules.getD k false)
   | l, .ofStr q qe set =>
       quantHolds (quantOf q (eval env l qe)) (set.countP (strFound env)) set.length
   | l, .ofStrIn q qe set lo hi =>
@@ -452,8 +457,8 @@ def eval (env : Env) : LEnv → Expr → Val
       | _ => .undef
   | l, .pctStr p set => pctHolds (set.countP (strFound env)) set.length (eval env l p)
   | l, .ofRules q qe set =>
-      quantHolds (quantOf q (eval env l qe)) (set.countP fun k => env.rules.getD k false) set.length
-  | l, .pctRules p set => pctHolds (set.countP fun k => env.rules.getD k false) set.length (eval env l p)
+      quantHolds (quantOf q (eval env l qe)) (set.countP env.ruleMatched) set.length
+  | l, .pctRules p set => pctHolds (set.countP env.ruleMatched) set.length (eval env l p)
   | l, .forRange q qe lo hi body =>
       let items := intRange (eval env l lo) (eval env l hi)
       loopHolds (quantOf q (eval env l qe))
@@ -485,5 +490,14 @@ def evalRules (blocks : List (Nat × Bytes)) (filesize : Int) (ext : List (Strin
   | r :: rs, acc =>
     evalRules blocks filesize ext rs
       (acc ++ [ruleVerdict { strs := r.strs, blocks, filesize, ext, rules := acc } r.cond])
+
+/-- the same with the rules whose indices are in `disabled` switched off (yr_rule_disable): they do not match, whatever
+    their condition says; later rules see them as described at `Env.disabled` -/
+def evalRulesD (blocks : List (Nat × Bytes)) (filesize : Int) (ext : List (String × Val)) (disabled : List Nat) :
+    List Rule → List Bool → List Bool
+  | [], acc => acc
+  | r :: rs, acc =>
+    evalRulesD blocks filesize ext disabled rs
+      (acc ++ [!disabled.contains acc.length && ruleVerdict { strs := r.strs, blocks, filesize, ext, rules := acc, disabled } r.cond])
 
 end YaraModel.Cond
